@@ -644,7 +644,9 @@ static cfg_opt_t *cfg_addopt(cfg_t *cfg, char *key)
 	cfg->opts[num].type = CFGT_STR;
 
 	if (!cfg->opts[num].name) {
-		free(opts);
+		/* the grown array now belongs to cfg; entry num is still
+		 * the end marker because its name is NULL */
+		cfg->opts[num].type = CFGT_NONE;
 		return NULL;
 	}
 
